@@ -34,11 +34,13 @@ def inf_conversions(ctx, rid, floor=12):
                "every distance-to-counter conversion substitutes the same constant for an infinite distance")
     ctx.call_sites += len(sites)
     vals = {v for _, _, v, _ in sites}
-    if len(sites) < floor:
-        ctx.bad(o, "only %d conversion sites found (floor %d)" % (len(sites), floor))
+    if not sites:
+        ctx.floor(o, 0, floor, "conversion sites")
     elif len(vals) != 1 or None in vals:
         odd = [(k.split("::")[-1], i.line(), v) for k, i, v, _ in sites]
         ctx.bad(o, "conversion sites disagree: %s" % odd[:14], loc=sites[0][1].line())
+    elif len(sites) < floor:
+        ctx.floor(o, len(sites), floor, "conversion sites (all substitute %s)" % vals.pop())
     else:
         ctx.ok(o, "%d sites, all substitute %s" % (len(sites), vals.pop()),
                sample={"sites": sorted({k.split("::")[-1] for k, _, _, _ in sites})})
